@@ -154,6 +154,22 @@ theorem half_closed_tunnel_released_when_both_ended (c : Cfg) (ops : List Op) (t
     run_snoc, run_snoc, run_snoc, run_snoc]
   exact this
 
+/-- **an ICMP datagram counts only when it was relayed**: an answered echo adds its on-the-wire
+length to both directions of the session's protocol, a dropped one changes no cell at all -/
+theorem icmp_counts_only_relayed (c : Cfg) (ops : List Op) (t n : Nat)
+    (h : ((after c ops).tuns.getD t default).st = .imux) :
+    let s := after c ops
+    let p := protoOf s (s.tuns.getD t default).sess
+    (after c (ops ++ [.icmpEcho t true n])).cells = (s.cells.addUp p (8 + n)).addDn p (8 + n) ∧
+    (after c (ops ++ [.icmpEcho t false n])).cells = s.cells := by
+  show (after c (ops ++ [.icmpEcho t true n])).cells = _ ∧
+    (after c (ops ++ [.icmpEcho t false n])).cells = (after c ops).cells
+  unfold after at h ⊢
+  rw [run_snoc, run_snoc]
+  simp only [step]
+  rw [h]
+  exact ⟨rfl, rfl⟩
+
 /-- UDP: a multiplexer step adds to the session's protocol exactly the payload bytes the
 multiplexer model (`TT.UdpFlows`, C07) reports as sent / delivered -/
 theorem udp_bytes_follow_multiplexer (c : Cfg) (ops : List Op) (t : Nat) (u : UdpFlows.St) (m : UdpFlows.Meta) (n : Nat)
